@@ -214,4 +214,35 @@ Proof.
     rewrite ?HE, ?HO; reflexivity.
 Qed.
 
+(* A module list given again on the same side replaces the earlier one: the builder state after two consecutive
+   module-list calls is the state after the second alone - wherever in a history they stand. *)
+Lemma rstep_modules_twice (st : rstate) (c1 c2 : rcall) (st1 : rstate) :
+  is_modules_call c1 = true -> is_modules_call c2 = true ->
+  rstep st c1 = Ok st1 -> rstep st1 c2 = rstep st c2.
+Proof.
+  intros H1 H2 Hs. destruct st as [c nx].
+  destruct c1; try discriminate H1; destruct c2; try discriminate H2;
+    unfold rstep, set_modules in *; cbn [st_next st_cfg] in *;
+    destruct nx as [[|]|]; try discriminate Hs; injection Hs as <-; reflexivity.
+Qed.
+
+Lemma rbuild_app (st : rstate) (h t : list rcall) :
+  rbuild st (h ++ t) = match rbuild st h with Ok st' => rbuild st' t | Er e => Er e end.
+Proof.
+  revert st. induction h as [|c h IH]; intros st; cbn [app rbuild]; [reflexivity|].
+  destruct (rstep st c) as [st'|e]; [apply IH|reflexivity].
+Qed.
+
+Lemma last_list_wins (g : graph) (h : list rcall) (c1 c2 : rcall) (t : list rcall) :
+  is_modules_call c1 = true -> is_modules_call c2 = true ->
+  (exists st, rbuild rinit (h ++ [c1]) = Ok st) ->
+  run_rule ceqb rmatch g (h ++ c1 :: c2 :: t) = run_rule ceqb rmatch g (h ++ c2 :: t).
+Proof.
+  intros H1 H2 [st1 Hst]. unfold run_rule.
+  rewrite rbuild_app in Hst. rewrite !rbuild_app.
+  destruct (rbuild rinit h) as [st0|e]; [|discriminate Hst].
+  cbn [rbuild] in *. destruct (rstep st0 c1) as [st1'|e1] eqn:E1; [|discriminate Hst].
+  rewrite (rstep_modules_twice st0 c1 c2 st1' H1 H2 E1). reflexivity.
+Qed.
+
 End BuilderProofs.
